@@ -157,7 +157,46 @@ def load_known():
 # sharded execution
 
 
-def _shard_entry(fn, args, q, idx):
+def _cpu_busy():
+    out = {}
+    try:
+        for line in open("/proc/stat"):
+            if line.startswith("cpu") and line[3].isdigit():
+                f = line.split()
+                v = list(map(int, f[1:9]))
+                out[int(f[0][3:])] = (sum(v) - v[3] - v[4], sum(v))
+    except Exception:
+        pass
+    return out
+
+
+def idle_ranked_cpus():
+    """CPUs this process may use, least busy first (busy fraction sampled over 0.25 s)."""
+    try:
+        allowed = sorted(os.sched_getaffinity(0))
+    except Exception:
+        return []
+    a = _cpu_busy()
+    time.sleep(0.25)
+    b = _cpu_busy()
+    load = {}
+    for c in allowed:
+        if c in a and c in b and b[c][1] > a[c][1]:
+            load[c] = (b[c][0] - a[c][0]) / (b[c][1] - a[c][1])
+        else:
+            load[c] = 0.0
+    return sorted(allowed, key=lambda c: (round(load[c], 1), c))
+
+
+def _shard_entry(fn, args, q, idx, cpu=None):
+    if cpu is not None and not os.environ.get("VERIF_NO_PIN"):
+        # the lock-stepped manager thread and the harness thread hand a baton back and forth: keeping both on
+        # one core avoids cross-core wake-up latency.  The parent hands every running shard its own core,
+        # least busy cores first, so that concurrent runs do not pile up on the same cores.
+        try:
+            os.sched_setaffinity(0, {cpu})
+        except Exception:
+            pass
     try:
         res = fn(*args)
         q.put((idx, "ok", res))
@@ -187,10 +226,14 @@ def run_shards(fn: Callable[..., Result], arglist: List[tuple], jobs: Optional[i
     running = {}
     done = 0
     errors = []
+    free_cpus = idle_ranked_cpus()
+    cpu_of = {}
     while pending or running:
         while pending and len(running) < jobs:
             idx, a = pending.pop(0)
-            p = ctx.Process(target=_shard_entry, args=(fn, a, q, idx), daemon=True)
+            cpu = free_cpus.pop(0) if free_cpus else None
+            cpu_of[idx] = cpu
+            p = ctx.Process(target=_shard_entry, args=(fn, a, q, idx, cpu), daemon=True)
             p.start()
             running[idx] = p
         try:
@@ -201,8 +244,12 @@ def run_shards(fn: Callable[..., Result], arglist: List[tuple], jobs: Optional[i
                 if not p.is_alive() and p.exitcode not in (0, None):
                     errors.append(f"shard {idx} died with exit code {p.exitcode}")
                     del running[idx]
+                    if cpu_of.get(idx) is not None:
+                        free_cpus.append(cpu_of.pop(idx))
             continue
         p = running.pop(idx, None)
+        if cpu_of.get(idx) is not None:
+            free_cpus.append(cpu_of.pop(idx))
         if p is not None:
             p.join(timeout=10)
         if status == "ok":
